@@ -54,7 +54,7 @@ P["C12"] = dict(level="fault_enumeration", design="DESIGN.md 7.8", assumptions=[
    "a crash, sanitizer report, abort, uncaught non-standard exception or hang on a receiving side is a violation; a negative result or a std::exception is a clean refusal",
    "sanitizer build reduces TMCG_MAX_STACK_CHARS to 4 MB (-D for the scenario sources, a shadowed libTMCG_config.h for the library sources, which define it unconditionally) to keep the 671 MB line buffer of every stack import from dominating the run time"],
  quick=[leg("cards","asan",900,10,8,240), leg("torn","asan",0,10,0,240), leg("aio","asan",500,10,8,120), leg("rbc","asan",800,10,8,60), leg("ot","asan",600,10,8,60), leg("flip2","asan",600,10,8,60), leg("pgp","asan",12000,10,32,120), leg("keygen","asan",800,10,8,60), leg("qrcards","asan",1000,10,8,240)],
- thorough=[leg("cards","asan",40000,10,32,240,900), leg("torn","asan",0,10,0,240,None,["--deep","1"]), leg("aio","asan",8000,10,16,120,300), leg("rbc","asan",20000,10,16,60,300), leg("ot","asan",10000,10,16,60,120), leg("flip2","asan",10000,10,16,60,120), leg("pgp","asan",600000,10,64,120,400), leg("keygen","asan",20000,10,16,60,120), leg("qrcards","asan",40000,10,16,240,200)],
+ thorough=[leg("cards","asan",40000,10,32,240,900), leg("torn","asan",0,10,0,1200,None,["--deep","1"]), leg("aio","asan",8000,10,16,120,300), leg("rbc","asan",20000,10,16,60,300), leg("ot","asan",10000,10,16,60,120), leg("flip2","asan",10000,10,16,60,120), leg("pgp","asan",600000,10,64,120,400), leg("keygen","asan",20000,10,16,60,120), leg("qrcards","asan",40000,10,16,240,200)],
  text="All scenarios are run in the ASan+UBSan build (library built without NDEBUG, as shipped, so a reachable assert is a kill); the cards scenario adds truncation of the transcript inside any prover line, well-formed stack secrets of another size, line swaps and mutations; the pgp scenario feeds the OpenPGP parsers with emitted packets whose bodies are truncated at every offset with re-encoded lengths, bit-flipped and cut; the torn scenario re-imports every artefact kind (cards, secrets, stacks, stack secrets, keys, groups, commitment parameters, persisted protocol states, non-interactive proofs) cut at every byte offset and with single bytes flipped. Any crash, sanitizer report, abort or hang attributed to a seed is a violation.",
  note="trusted: sanitizers; not a general fuzzer")
 P["C13"] = dict(level="exploration", design="DESIGN.md 7.1", assumptions=[
